@@ -1,21 +1,21 @@
 SPECIFICATION SimSpec
 CONSTANTS
-  CKeys = {"k1", "k2", "k3"}
+  CKeys = {"k1"}
   Contents = {"a", "b", "c"}
-  NsIds = {"n1", "n2"}
+  NsIds = {}
   NsNames = {"x", "y"}
-  UKeys = {"u1", "u2"}
+  UKeys = {}
   UVals = {"p", "q"}
-  SKeys = {"s1", "s2"}
+  SKeys = {}
   CTypes = {"", "json", "yaml"}
   CDescs = {"", "d1"}
   IKeys = {"s1:10.0.0.1:80", "s1:10.0.0.2:80", "s2:10.0.0.1:81"}
   IWeights = {2, 3}
   CaKeys = {"c1", "c2"}
   CaVals = {"cv", "cw"}
-  TKeys = {"t1", "t2"}
+  TKeys = {}
   TVals = {"f", "g"}
-  SrvIds = {"1", "2"}
+  SrvIds = {}
   Defect_McpStickyRefs = FALSE
   Defect_McpRcLostAtSnapshot = FALSE
   HistMax = 100
